@@ -25,12 +25,25 @@ from harness.common import harness_main, run_driver
 from harness.keys import key_to_float, random_key, kstr
 
 
-def mkpop(rng, n, nan_prob=0.15, dup_prob=0.1):
+EMBEDDINGS = {
+    # order-preserving, exact images of the integer keys: the selection rules compare with < only, so nothing may depend on
+    # HOW FAR apart two fitness values are (a tolerance would show here)
+    "halves": None,
+    "large, close": lambda k: 1e6 + 0.5 * k,
+    "tiny": lambda k: k * 1e-9,
+    "adjacent doubles": lambda k: 1.0 + k * 2.0 ** -52,
+}
+
+
+def mkpop(rng, n, nan_prob=0.15, dup_prob=0.1, embedding=None):
+    """`embedding`: name in EMBEDDINGS; None = drawn per population (populations that meet in one history - successive
+    hall-of-fame updates - must share one)"""
     pop = []
+    emb = EMBEDDINGS[embedding or rng.choice(["halves", "halves", "large, close", "tiny", "adjacent doubles"])]
     for i in range(n):
         k = random_key(rng, nan_prob=nan_prob)
         c = MultipleValueChromosome([i, rng.randrange(0, 3), rng.randrange(0, 3)])
-        c.fitness = key_to_float(k, rng)
+        c.fitness = key_to_float(k, rng) if (emb is None or k == "nan" or abs(k) >= 10 ** 6) else emb(k)
         c.genetic_age = rng.randrange(0, 4)
         c.key = k
         pop.append(c)
